@@ -10,14 +10,23 @@ use std::sync::mpsc::{channel, Receiver};
 use std::sync::{Arc, Mutex};
 use std::time::Duration;
 
-pub const ADLT_BIN: &str = "/verif/target-mc/release/adlt";
+/// where the adlt binary (hooks on) is built from / to; overridable for scratch runs against a worktree
+pub fn adlt_repo() -> String {
+    std::env::var("MC_ADLT_REPO").unwrap_or_else(|_| "/repo".into())
+}
+pub fn adlt_target() -> String {
+    std::env::var("MC_ADLT_TARGET").unwrap_or_else(|_| "/verif/target-mc".into())
+}
+pub fn adlt_bin() -> String {
+    format!("{}/release/adlt", adlt_target())
+}
 
 /// build the adlt binary (hooks on) from /repo's working tree
 pub fn build_adlt_bin() -> Result<(), String> {
     let out = Command::new("cargo")
-        .args(["build", "--offline", "--release", "--bin", "adlt", "--manifest-path", "/repo/Cargo.toml"])
+        .args(["build", "--offline", "--release", "--bin", "adlt", "--manifest-path", &format!("{}/Cargo.toml", adlt_repo())])
         .env("RUSTFLAGS", "--cfg adlt_verif")
-        .env("CARGO_TARGET_DIR", "/verif/target-mc")
+        .env("CARGO_TARGET_DIR", adlt_target())
         .env("CARGO_PROFILE_RELEASE_OVERFLOW_CHECKS", "true")
         .env("CARGO_NET_OFFLINE", "true")
         .output()
@@ -92,6 +101,91 @@ pub fn gen_log(n: usize) -> (Vec<u8>, Vec<LogMsg>) {
     }
     (bytes, infos)
 }
+/// many minimal messages (one ECU, one lifecycle): used to saturate the bounded pipeline channels
+pub fn gen_big_log(n: usize) -> Vec<u8> {
+    let mut b = Vec::with_capacity(n * 36);
+    for i in 0..n {
+        let spec = MsgSpec {
+            framing: Framing::Storage,
+            htyp: VERS1 | WEID | WTMS,
+            storage_ecu: *b"ECU1",
+            hdr_ecu: *b"ECU1",
+            mcnt: i as u8,
+            timestamp: 100_000 + (i as u32) / 10,
+            secs: 1_650_000_000 + (i / 100_000) as u32,
+            micros: (i % 100_000) as u32 * 10,
+            payload: vec![(i >> 16) as u8, (i >> 8) as u8, i as u8, 0],
+            ..Default::default()
+        };
+        b.extend_from_slice(&spec.to_bytes());
+    }
+    b
+}
+
+/// "a close always completes - also while parsing is still running - after which a new open succeeds":
+/// open a file large enough to fill the bounded channels while nothing is consumed (paused), wait until the
+/// pipeline threads block in send, then close (watchdog) and open/close again.
+pub fn backpressure_close(big: &str, small: &str, variant: &str) -> Vec<(String, String, String)> {
+    let mut viol = vec![];
+    let mut d = Driver::spawn();
+    let mut run = || -> Result<(), DriverErr> {
+        let open = match variant {
+            "onepass_paused" => format!(r#"C open {{"files":["{big}"],"collect":"one_pass_streams"}}"#),
+            "sorted_paused" => format!(r#"C open {{"files":["{big}"],"sort":true}}"#),
+            _ => format!(r#"C open {{"files":["{big}"]}}"#),
+        };
+        let r = d.step(&open, 60)?;
+        if !r["frames"][0]["t"].as_str().unwrap_or("").starts_with("ok:") {
+            viol.push(("backpressure_open_rejected".into(), variant.into(), r["frames"].to_string()));
+            return Ok(());
+        }
+        if variant != "onepass_paused" {
+            d.step("C pause", 20)?;
+        }
+        // wait until the parser thread is done (its output sits in the bounded channels) or is blocked itself
+        let t0 = std::time::Instant::now();
+        loop {
+            let r = d.step("T 0", 20)?;
+            let fin = r["state"]["pipeline"]["parse_finished"].as_bool().unwrap_or(false);
+            if fin || t0.elapsed() > Duration::from_secs(6) {
+                break;
+            }
+            std::thread::sleep(Duration::from_millis(100));
+        }
+        std::thread::sleep(Duration::from_millis(300));
+        match d.step("C close", 40) {
+            Err(DriverErr::Hang) => {
+                viol.push(("hang".into(), "close_under_backpressure".into(), format!("close did not return within 40 s with the pipeline blocked on full channels (variant {variant})")));
+                return Err(DriverErr::Hang);
+            }
+            Err(e) => return Err(e),
+            Ok(r) => {
+                let t = r["frames"][0]["t"].as_str().unwrap_or("").to_string();
+                if !t.starts_with("ok:") || r["state"]["open"] != false {
+                    viol.push(("close_under_backpressure".into(), variant.into(), format!("close answered '{t}', state {}", r["state"])));
+                }
+            }
+        }
+        let r = d.step(&format!(r#"C open {{"files":["{small}"]}}"#), 30)?;
+        if !r["frames"][0]["t"].as_str().unwrap_or("").starts_with("ok:") {
+            viol.push(("open_after_close_failed".into(), variant.into(), r["frames"].to_string()));
+        }
+        let r = d.step("T inf", 30)?;
+        if r["state"]["all_msgs"].as_u64() != Some(8) {
+            viol.push(("open_after_close_failed".into(), "messages".into(), format!("re-opened small file shows {} messages", r["state"]["all_msgs"])));
+        }
+        d.step("C close", 30)?;
+        Ok(())
+    };
+    if let Err(e) = run() {
+        if !matches!(e, DriverErr::Hang) || viol.is_empty() {
+            viol.push((if matches!(e, DriverErr::Hang) { "hang".into() } else { "driver_died".into() }, format!("backpressure:{variant}"), format!("{e:?}")));
+        }
+        d.kill();
+    }
+    viol
+}
+
 pub fn scratch_dir() -> String {
     let d = format!("{}/target-mc/tmp/remote-{}", verif_dir(), std::process::id());
     std::fs::create_dir_all(&d).ok();
@@ -112,7 +206,7 @@ pub enum DriverErr {
 }
 impl Driver {
     pub fn spawn() -> Driver {
-        let mut child = Command::new(ADLT_BIN).arg("verif-driver").stdin(Stdio::piped()).stdout(Stdio::piped()).stderr(Stdio::null()).spawn().expect("spawn adlt verif-driver");
+        let mut child = Command::new(adlt_bin()).arg("verif-driver").stdin(Stdio::piped()).stdout(Stdio::piped()).stderr(Stdio::null()).spawn().expect("spawn adlt verif-driver");
         let stdin = child.stdin.take().unwrap();
         let stdout = child.stdout.take().unwrap();
         let (tx, rx) = channel();
@@ -292,6 +386,9 @@ fn extract_id(reply: &str) -> Option<u64> {
 /// canonical form of the driver snapshot + model (stream ids renumbered by order)
 fn canon_state(state: &Value, model: &Model) -> String {
     let mut s = state.clone();
+    if let Some(o) = s.as_object_mut() {
+        o.remove("pipeline"); // thread progress is timing dependent and not part of the session state
+    }
     if let Some(streams) = s.get_mut("streams").and_then(|x| x.as_array_mut()) {
         for (i, st) in streams.iter_mut().enumerate() {
             st["id"] = json!(i);
@@ -571,7 +668,7 @@ impl Prop for C15 {
                 "one generated 8-message log file".into()],
             budget_s: (50, 1500),
             workers: 1,
-            required_landmarks: vec!["reply_ok", "reply_err", "reply_unknown", "stream_created", "query_finished(marker)"],
+            required_landmarks: vec!["reply_ok", "reply_err", "reply_unknown", "stream_created", "query_finished(marker)", "backpressure_close_scenario", "tcp_conformance_ok"],
         }
     }
     fn prepare(&self, _t: Tier) -> Result<(), String> {
@@ -582,6 +679,28 @@ impl Prop for C15 {
         let dir = scratch_dir();
         let file = format!("{dir}/log8.dlt");
         std::fs::write(&file, gen_log(8).0).expect("write log");
+        // backpressure scenarios run concurrently with the search
+        let big = format!("{dir}/big.dlt");
+        std::fs::write(&big, gen_big_log(700_000)).expect("write big log");
+        let mut bp_variants = vec!["onepass_paused", "all_paused", "sorted_paused"];
+        let huge = format!("{dir}/huge.dlt");
+        if ctx.tier == Tier::Thorough {
+            std::fs::write(&huge, gen_big_log(1_800_000)).expect("write huge log");
+            bp_variants.push("huge_onepass_paused");
+        }
+        let bp_handles: Vec<_> = bp_variants
+            .into_iter()
+            .map(|v| {
+                let (big, huge, small) = (big.clone(), huge.clone(), file.clone());
+                std::thread::spawn(move || {
+                    if v == "huge_onepass_paused" {
+                        (v, backpressure_close(&huge, &small, "onepass_paused"))
+                    } else {
+                        (v, backpressure_close(&big, &small, v))
+                    }
+                })
+            })
+            .collect();
         let sigma = Arc::new(alphabet());
         let nthreads = std::thread::available_parallelism().map(|n| n.get()).unwrap_or(4);
         let mut seen: HashSet<String> = HashSet::new();
@@ -732,12 +851,43 @@ impl Prop for C15 {
             }
         }
         }
+        ctx.begin_family("backpressure_close", "open a 700k-message file (thorough: also 1.8M) paused / one_pass / sorted, wait until the pipeline blocks on its full bounded channels, close (40 s watchdog), re-open, close");
+        for h in bp_handles {
+            if let Ok((v, viol)) = h.join() {
+                ctx.mine();
+                ctx.landmark("backpressure_close_scenario");
+                ctx.sum.evaluations += 1;
+                ctx.sum.states += 1;
+                ctx.sum.nontrivial += 1;
+                for (c, d, detail) in viol {
+                    ctx.violation(&c, &d, || json!({"family": "backpressure_close", "variant": v}), detail);
+                }
+            }
+        }
+        ctx.end_family(true);
+        tcp_conformance(ctx, &file);
         ctx.extra_set("bfs_states", json!(total_states));
         ctx.extra_set("bfs_transitions", json!(total_trans));
         let _ = std::fs::remove_dir_all(&dir);
     }
     fn replay(&self, case: &Value, ctx: &mut Ctx) {
         ctx.mine();
+        if case["family"] == "backpressure_close" {
+            if build_adlt_bin().is_err() {
+                return;
+            }
+            let dir = scratch_dir();
+            let (big, small) = (format!("{dir}/big.dlt"), format!("{dir}/log8.dlt"));
+            let v = case["variant"].as_str().unwrap_or("onepass_paused");
+            std::fs::write(&big, gen_big_log(if v.starts_with("huge") { 1_800_000 } else { 700_000 })).expect("write");
+            std::fs::write(&small, gen_log(8).0).expect("write");
+            for (c, d, detail) in backpressure_close(&big, &small, v.trim_start_matches("huge_")) {
+                ctx.violation(&c, &d, || case.clone(), detail);
+            }
+            ctx.eval(true);
+            let _ = std::fs::remove_dir_all(&dir);
+            return;
+        }
         let sigma = alphabet();
         let h: Vec<Sym> = case["steps"].as_array().unwrap().iter().map(|n| sigma.iter().find(|s| s.name() == n.as_str().unwrap()).expect("symbol").clone()).collect();
         if build_adlt_bin().is_err() {
@@ -769,3 +919,302 @@ impl Prop for C15 {
 
 #[allow(dead_code)]
 pub fn unused(_: BTreeMap<u8, u8>) {}
+
+// ------------------------------------------------------------------ TCP conformance of the driver abstraction
+/// An endpoint executes one command and returns the frames that followed it once the session has settled
+/// (all parsed messages arrived and were served): the driver does that with explicit ticks, the real server
+/// by running its own event loop for a short while.
+pub trait Endpoint {
+    fn exec(&mut self, cmd: &str) -> Result<Vec<Value>, String>;
+}
+pub struct DriverEndpoint(pub Driver);
+impl Endpoint for DriverEndpoint {
+    fn exec(&mut self, cmd: &str) -> Result<Vec<Value>, String> {
+        let mut frames = vec![];
+        for l in [format!("C {cmd}"), "T inf".to_string(), "T 0".to_string(), "T 0".to_string()] {
+            let r = self.0.step(&l, 30).map_err(|e| format!("{e:?}"))?;
+            if let Some(p) = r["panic"].as_str() {
+                return Err(format!("panic {p}"));
+            }
+            frames.extend(r["frames"].as_array().cloned().unwrap_or_default());
+        }
+        Ok(frames)
+    }
+}
+pub struct TcpServer {
+    child: Child,
+    pub port: u16,
+}
+impl TcpServer {
+    pub fn start(port: u16) -> Result<TcpServer, String> {
+        let mut child = Command::new(adlt_bin()).args(["remote", "-p", &port.to_string()]).stdout(Stdio::piped()).stderr(Stdio::null()).spawn().map_err(|e| e.to_string())?;
+        let out = child.stdout.take().unwrap();
+        let mut rd = BufReader::new(out);
+        let mut line = String::new();
+        // "remote server listening on .."
+        if rd.read_line(&mut line).is_err() || !line.contains("listening") {
+            let _ = child.kill();
+            return Err(format!("server did not start on port {port}: '{line}'"));
+        }
+        std::thread::spawn(move || {
+            let mut s = String::new();
+            while rd.read_line(&mut s).map(|n| n > 0).unwrap_or(false) {
+                s.clear();
+            }
+        });
+        Ok(TcpServer { child, port })
+    }
+}
+impl Drop for TcpServer {
+    fn drop(&mut self) {
+        let _ = self.child.kill();
+        let _ = self.child.wait();
+    }
+}
+pub struct TcpEndpoint {
+    ws: tungstenite::WebSocket<tungstenite::stream::MaybeTlsStream<std::net::TcpStream>>,
+}
+impl TcpEndpoint {
+    pub fn connect(port: u16) -> Result<TcpEndpoint, String> {
+        let (ws, _) = tungstenite::connect(format!("ws://127.0.0.1:{port}")).map_err(|e| e.to_string())?;
+        if let tungstenite::stream::MaybeTlsStream::Plain(s) = ws.get_ref() {
+            let _ = s.set_read_timeout(Some(Duration::from_millis(50)));
+        }
+        Ok(TcpEndpoint { ws })
+    }
+}
+fn char4(v: u32) -> String {
+    String::from_utf8_lossy(&v.to_le_bytes()).to_string()
+}
+impl Endpoint for TcpEndpoint {
+    fn exec(&mut self, cmd: &str) -> Result<Vec<Value>, String> {
+        self.ws.write_message(tungstenite::Message::Text(cmd.to_string())).map_err(|e| e.to_string())?;
+        let mut frames = vec![];
+        let start = std::time::Instant::now();
+        let mut last = std::time::Instant::now();
+        let mut got_reply = false;
+        loop {
+            match self.ws.read_message() {
+                Ok(tungstenite::Message::Text(t)) => {
+                    if t.starts_with("ok:") || t.starts_with("err:") || t.starts_with("unknown command") {
+                        got_reply = true;
+                    }
+                    frames.push(json!({"t": t}));
+                    last = std::time::Instant::now();
+                }
+                Ok(tungstenite::Message::Binary(b)) => {
+                    let cfg = bincode::config::legacy();
+                    if let Ok((bt, _)) = bincode::decode_from_slice::<adlt::utils::remote_types::BinType, _>(&b, cfg) {
+                        if let adlt::utils::remote_types::BinType::DltMsgs((id, msgs)) = bt {
+                            frames.push(json!({"b":"DltMsgs","id":id,"msgs":msgs.iter().map(|m| json!({"index": m.index, "ecu": char4(m.ecu), "payload": m.payload_as_text})).collect::<Vec<_>>()}));
+                        }
+                    }
+                    last = std::time::Instant::now();
+                }
+                Ok(_) => {}
+                Err(tungstenite::Error::Io(e)) if e.kind() == std::io::ErrorKind::WouldBlock || e.kind() == std::io::ErrorKind::TimedOut => {
+                    // settled: a reply was seen and nothing arrived for 400 ms (the server loop ticks every ~100 ms)
+                    if (got_reply && last.elapsed() > Duration::from_millis(400)) || start.elapsed() > Duration::from_secs(20) {
+                        break;
+                    }
+                }
+                Err(e) => return Err(e.to_string()),
+            }
+        }
+        if !got_reply {
+            return Err(format!("no reply to '{cmd}' within 20 s"));
+        }
+        Ok(frames)
+    }
+}
+
+/// transcript of a history on an endpoint: per command (reply class, canonical id announced) and per canonical
+/// stream id the delivered message indices in order and whether the end marker was seen
+pub fn transcript(ep: &mut dyn Endpoint, file: &str, hist: &[Sym]) -> Result<Value, String> {
+    let mut live: Vec<u64> = vec![];
+    let mut stale: Vec<u64> = vec![];
+    let mut order: Vec<u64> = vec![]; // announcement order = canonical numbering
+    let mut replies = vec![];
+    let mut data: BTreeMap<usize, (Vec<u64>, bool)> = BTreeMap::new();
+    for sym in hist {
+        let cmd: String = match sym {
+            Sym::Raw(_, t) => t.replace("{FILE}", file),
+            Sym::Tick(_) => continue,
+            Sym::WithId(_, c, idr, body) => {
+                let id = match idr {
+                    IdRef::Last => live.last().map(|x| x.to_string()),
+                    IdRef::First => live.first().map(|x| x.to_string()),
+                    IdRef::Stale => stale.last().map(|x| x.to_string()),
+                    IdRef::Never => Some("999999".into()),
+                    IdRef::NonNumeric => Some("abc".into()),
+                    IdRef::Missing => Some(String::new()),
+                };
+                match id {
+                    None => {
+                        replies.push(json!("not_enabled"));
+                        continue;
+                    }
+                    Some(id) => match body {
+                        Some(b) => format!("{c} {id} {b}"),
+                        None => format!("{c} {id}").trim_end().to_string(),
+                    },
+                }
+            }
+        };
+        let frames = ep.exec(&cmd)?;
+        let classes = reply_class(&frames);
+        let reply = frames.iter().filter_map(|f| f["t"].as_str()).find(|t| t.starts_with("ok:") || t.starts_with("err:") || t.starts_with("unknown")).unwrap_or("").to_string();
+        let mut announced = None;
+        if classes.first().map(|c| c == "ok").unwrap_or(false) {
+            match sym {
+                Sym::Raw(n, _) if n.starts_with("stream_") || n.starts_with("query_") => {
+                    if let Some(id) = extract_id(&reply) {
+                        live.push(id);
+                        order.push(id);
+                        announced = Some(order.len() - 1);
+                    }
+                }
+                Sym::Raw("close", _) => {
+                    stale.extend(live.drain(..));
+                }
+                Sym::WithId(_, "stop", _, _) => {
+                    if let Some(id) = cmd.split(' ').nth(1).and_then(|x| x.parse::<u64>().ok()) {
+                        live.retain(|x| *x != id);
+                        stale.push(id);
+                    }
+                }
+                Sym::WithId(_, "stream_change_window", _, _) => {
+                    if let (Some(old), Some(new)) = (cmd.split(' ').nth(1).and_then(|x| x.parse::<u64>().ok()), extract_id(&reply)) {
+                        for x in live.iter_mut() {
+                            if *x == old {
+                                *x = new;
+                            }
+                        }
+                        stale.push(old);
+                        order.push(new);
+                        announced = Some(order.len() - 1);
+                    }
+                }
+                _ => {}
+            }
+        }
+        replies.push(json!({"class": classes, "announced": announced}));
+        for f in &frames {
+            let (sid, idxs, end): (Option<u64>, Vec<u64>, bool) = if f["b"] == "DltMsgs" {
+                let m = f["msgs"].as_array().cloned().unwrap_or_default();
+                (f["id"].as_u64(), m.iter().filter_map(|x| x["index"].as_u64()).collect(), m.is_empty())
+            } else if let Some(t) = f["t"].as_str().and_then(|t| t.strip_prefix("stream:")) {
+                let sid = t.split(' ').next().and_then(|x| x.parse().ok());
+                let idx = t.split_once("):").and_then(|(_, h)| h.split(' ').next()).and_then(|x| x.parse::<u64>().ok());
+                (sid, idx.into_iter().collect(), false)
+            } else {
+                (None, vec![], false)
+            };
+            if let Some(sid) = sid {
+                let canon = order.iter().position(|x| *x == sid).unwrap_or(usize::MAX);
+                let e = data.entry(canon).or_default();
+                e.0.extend(idxs);
+                e.1 |= end;
+                if end {
+                    live.retain(|x| *x != sid);
+                    stale.push(sid);
+                }
+            }
+        }
+    }
+    Ok(json!({"replies": replies, "streams": data.iter().map(|(k, v)| json!({"stream": k, "indices": v.0, "ended": v.1})).collect::<Vec<_>>()}))
+}
+
+/// alphabet of the conformance replay (commands only; arrival timing is equalised by settling after each command)
+pub fn conformance_alphabet(thorough: bool) -> Vec<Sym> {
+    let all = alphabet();
+    let core = ["open_ok", "open_missing_file", "close", "pause", "resume", "stream_window_bin", "stream_filters", "query_filters", "stop_last", "stop_never", "chgwin_last", "ssearch_good", "unknown_word"];
+    let more = ["open_sorted", "open_nocollect", "open_malformed_json", "stream_default", "stream_nobody", "query_window", "stop_stale", "stop_nonnumeric", "chgwin_stale", "chgwin_last_nobody", "bsearch_index", "bsearch_time", "ssearch_nobody", "ssearch_paged", "plugin_cmd_malformed", "fs_stat", "fs_nonobject", "empty"];
+    all.into_iter().filter(|s| core.contains(&s.name().as_str()) || (thorough && more.contains(&s.name().as_str()))).collect()
+}
+
+/// replay command histories on the driver and over a real websocket against `adlt remote`; both transcripts must agree
+pub fn tcp_conformance(ctx: &mut Ctx, file: &str) {
+    let thorough = ctx.tier == Tier::Thorough;
+    let sigma = conformance_alphabet(thorough);
+    let open_ok = sigma.iter().find(|s| s.name() == "open_ok").unwrap().clone();
+    let sf = sigma.iter().find(|s| s.name() == "stream_filters").unwrap().clone();
+    let mut hists: Vec<Vec<Sym>> = vec![];
+    for prefix in [vec![], vec![open_ok.clone()], vec![open_ok, sf]] {
+        for a in &sigma {
+            let mut h = prefix.clone();
+            h.push(a.clone());
+            hists.push(h.clone());
+            if prefix.is_empty() || thorough {
+                for b in &sigma {
+                    let mut h2 = h.clone();
+                    h2.push(b.clone());
+                    hists.push(h2);
+                }
+            }
+        }
+    }
+    ctx.begin_family("tcp_conformance", &format!("{} command histories (prefix in {{-, open, open+stream}} x 1-2 commands over {} symbols) replayed on the driver and over a real websocket against `adlt remote`", hists.len(), sigma.len()));
+    let tasks = Arc::new(Mutex::new(hists.into_iter().rev().collect::<Vec<_>>()));
+    let results: Arc<Mutex<Vec<(Vec<Sym>, Result<(Value, Value), String>)>>> = Default::default();
+    let nthreads = std::thread::available_parallelism().map(|n| n.get()).unwrap_or(4);
+    let base_port = 21000 + (std::process::id() % 2000) as u16 * 16;
+    let mut hs = vec![];
+    for ti in 0..nthreads {
+        let (tasks, results, file) = (tasks.clone(), results.clone(), file.to_string());
+        hs.push(std::thread::spawn(move || {
+            let server = match TcpServer::start(base_port + ti as u16) {
+                Ok(s) => s,
+                Err(e) => {
+                    results.lock().unwrap().push((vec![], Err(e)));
+                    return;
+                }
+            };
+            let mut drv = DriverEndpoint(Driver::spawn());
+            loop {
+                let h = match tasks.lock().unwrap().pop() {
+                    Some(h) => h,
+                    None => break,
+                };
+                let r = (|| -> Result<(Value, Value), String> {
+                    drv.0.step("RESET", 30).map_err(|e| format!("{e:?}"))?;
+                    let a = transcript(&mut drv, &file, &h)?;
+                    let mut tcp = TcpEndpoint::connect(server.port)?;
+                    let b = transcript(&mut tcp, &file, &h)?;
+                    let _ = tcp.ws.close(None);
+                    Ok((a, b))
+                })();
+                if r.is_err() {
+                    drv.0.kill();
+                    drv = DriverEndpoint(Driver::spawn());
+                }
+                results.lock().unwrap().push((h, r));
+            }
+        }));
+    }
+    for h in hs {
+        let _ = h.join();
+    }
+    let mut res = std::mem::take(&mut *results.lock().unwrap());
+    res.sort_by_key(|(h, _)| h.iter().map(|s| s.name()).collect::<Vec<_>>());
+    let mut validated = 0u64;
+    for (h, r) in res {
+        ctx.mine();
+        match r {
+            Err(e) => ctx.violation("tcp_conformance_error", "", || hist_json(&h), e),
+            Ok((a, b)) => {
+                if a != b {
+                    ctx.violation("tcp_conformance_mismatch", "", || hist_json(&h), format!("driver transcript {a} != websocket transcript {b}"));
+                } else {
+                    validated += 1;
+                    ctx.landmark("tcp_conformance_ok");
+                }
+            }
+        }
+        ctx.sum.evaluations += 1;
+        ctx.sum.states += 1;
+        ctx.sum.nontrivial += 1;
+    }
+    ctx.extra_set("traces_replayed_over_tcp", json!(validated));
+    ctx.end_family(true);
+}
